@@ -1,5 +1,188 @@
-import FlexModel.Sec.Sign
+/-
+C09 — Trust store closure and signer authorisation.  Property theorems only.
+Model: FlexModel/Sec/{Cert,Store,Verify,Sign}.lean (mirrors the repaired code, `Cfg.fixed`); vocabulary:
+FlexModel/Sec/Spec.lean; helper lemmas: FlexModel/Sec/Lemmas.lean.
+-/
+import FlexModel.Sec.Lemmas
+
 namespace Props.C09
-open FlexModel.Sec
-theorem placeholder : (1 : Nat) = 1 := rfl
+open FlexModel.Sec FlexModel.Sec.Store
+
+/-! ## Closure of the trust store over every history -/
+
+/-- the empty library is closed -/
+theorem closed_init (U : Cert → Prop) : Inv U ({} : Store) :=
+  ⟨fun c h => by simp [certsOf] at h, fun c h => by simp [certsOf] at h⟩
+
+/-- every operation (add-root / add-AA / add-AT / add-own / verify-chain / received message / signing) preserves
+    closure, for certificates offered from a universe without HashedId8 collisions -/
+theorem closed_step {U : Cert → Prop} (hinj : IdInj U) (S : Station) (hinv : Inv U S.store) (op : Op)
+    (hop : ∀ c ∈ op.certs, U c) : Inv U (S.step Cfg.fixed op).store :=
+  step_inv hinj rfl hinv op hop
+
+/-- ALL histories: whatever certificates are offered or arrive inside messages, in any order and number, the
+    authorities and tickets of the store chain to a configured root -/
+theorem closed_reachable {U : Cert → Prop} (hinj : IdInj U) (ops : List Op) (S : Station) (hinv : Inv U S.store)
+    (hops : ∀ op ∈ ops, ∀ c ∈ op.certs, U c) : Inv U (S.run Cfg.fixed ops).store := by
+  induction ops generalizing S with
+  | nil => exact hinv
+  | cons op rest ih =>
+    simp only [Station.run, List.foldl_cons]
+    exact ih (S.step Cfg.fixed op) (closed_step hinj S hinv op (hops op (by simp)))
+      (fun o ho => hops o (by simp [ho]))
+
+/-- … in particular from the empty library -/
+theorem closed_from_empty {U : Cert → Prop} (hinj : IdInj U) (ops : List Op) (S : Station) (h0 : S.store = {})
+    (hops : ∀ op ∈ ops, ∀ c ∈ op.certs, U c) : Closed (S.run Cfg.fixed ops).store :=
+  (closed_reachable hinj ops S (h0 ▸ closed_init U) hops).closed
+
+/-- a stored authority or ticket has its issuer in the store: named by digest, signature by that issuer's key,
+    permissions within the issuer's issuing permissions (or it is itself a configured root) -/
+theorem stored_has_issuer {st : Store} (hc : Closed st) {c : Cert} (h : c ∈ certsOf st.aas ∨ c ∈ certsOf st.ats) :
+    c ∈ certsOf st.roots ∨ ∃ i, (i ∈ certsOf st.roots ∨ i ∈ certsOf st.aas) ∧ Link c i := by
+  cases hc c h with
+  | root hr => exact Or.inl hr
+  | step _ hi hl _ => exact Or.inr ⟨_, hi, hl⟩
+
+/-- finite path of issuer links -/
+inductive Path : Cert → Cert → Prop
+  | refl (c : Cert) : Path c c
+  | cons {c i r : Cert} : Link c i → Path i r → Path c r
+
+/-- "up to a configured root": the chain is a finite (well-founded) descent ending in the root dictionary -/
+theorem chain_to_root {st : Store} {c : Cert} (h : Chain st c) : ∃ r, r ∈ certsOf st.roots ∧ Path c r := by
+  induction h with
+  | root hr => exact ⟨_, hr, Path.refl _⟩
+  | step _ _ hl _ ih => obtain ⟨r, hr, hp⟩ := ih; exact ⟨r, hr, Path.cons hl hp⟩
+
+/-- the containment test of the repaired code is sound for the permission semantics … -/
+theorem permsOk_sound {c i : Cert} (h : Cert.permsOk Cfg.fixed c i = true) : PermsWithin c i :=
+  permsOk_within rfl h
+
+def wIssuer : Cert :=
+  { id := 1, issuer := .self, ctype := 0, vkiVerif := true, sigP256 := true, keyP256 := true, keyUnc := true,
+    idNone := false, app := none, issue := some [⟨.explicit [36, 37], 1⟩], start := 0, durUs := 1000, key := 1,
+    sigBy := some 1 }
+def wSubAll : Cert :=
+  { wIssuer with id := 2, issuer := .digest 1, app := some [36], issue := some [⟨.all, 5⟩], key := 2 }
+
+/-- … and was not for the code before the repair (C09-F3): a subordinate with the `all` issuing permission passed under an
+    issuer limited to {36, 37} -/
+theorem permsOk_old_witness : Cert.permsOk Cfg.old wSubAll wIssuer = true ∧ ¬ PermsWithin wSubAll wIssuer := by
+  refine ⟨by decide, fun h => ?_⟩
+  have := h.2 99 (Or.inl (by decide))
+  rcases this with h | h
+  · exact absurd h (by decide)
+  · exact absurd h (by decide)
+
+/-! ## Acceptance of messages -/
+
+/-- a message is accepted only if its ITS-AID is among the signing ticket's application permissions -/
+theorem accept_requires_psid {S S' : Station} {m : Msg} {o : VOut}
+    (h : S.verifyMsg Cfg.fixed m = (S', .ok o)) (hs : o.report = .success) :
+    ∃ a, a ∈ S'.store.ats ∧ o.certId = some a.c.id ∧ m.psid ∈ a.c.appList := by
+  obtain ⟨a, hmem, hacc, _⟩ := verifyMsg_success h hs
+  exact ⟨a, hmem, hacc.certId, hacc.psid rfl⟩
+
+/-- … and its generation time lies within the ticket's validity period -/
+theorem accept_requires_validity {S S' : Station} {m : Msg} {o : VOut}
+    (h : S.verifyMsg Cfg.fixed m = (S', .ok o)) (hs : o.report = .success) :
+    ∃ a, a ∈ S'.store.ats ∧ o.certId = some a.c.id ∧
+      ∃ t, m.genTime = some t ∧ a.c.start * 1000000 ≤ t ∧ t ≤ a.c.start * 1000000 + a.c.durUs := by
+  obtain ⟨a, hmem, hacc, _⟩ := verifyMsg_success h hs
+  exact ⟨a, hmem, hacc.certId, hacc.time rfl⟩
+
+/-- … under a ticket that chains to a configured root (closure + acceptance combined, any history before) -/
+theorem accept_requires_chain {U : Cert → Prop} (hinj : IdInj U) {S S' : Station} (hinv : Inv U S.store) {m : Msg}
+    (hm : ∀ c ∈ m.certs, U c) {o : VOut} (h : S.verifyMsg Cfg.fixed m = (S', .ok o)) (hs : o.report = .success) :
+    ∃ a, a ∈ S'.store.ats ∧ o.certId = some a.c.id ∧ Chain S'.store a.c := by
+  obtain ⟨a, hmem, hacc, _⟩ := verifyMsg_success h hs
+  have hinv' : Inv U S'.store := by
+    have := verifyMsg_inv hinj (cfg := Cfg.fixed) rfl hinv hm
+    rw [h] at this; exact this
+  exact ⟨a, hmem, hacc.certId, hinv'.closed _ (Or.inr (mem_certsOf.2 ⟨a, hmem, rfl⟩))⟩
+
+def accepts (cfg : Cfg) (S : Station) (m : Msg) : Bool :=
+  match (S.verifyMsg cfg m).2 with
+  | .ok o => o.report == .success
+  | .error _ => false
+
+def wRoot : Cert :=
+  { id := 10, issuer := .self, ctype := 0, vkiVerif := true, sigP256 := true, keyP256 := true, keyUnc := true,
+    idNone := false, app := none, issue := some [⟨.all, 2⟩], start := 100, durUs := 1000000000, key := 10,
+    sigBy := some 10 }
+def wAA : Cert := { wRoot with id := 11, issuer := .digest 10, issue := some [⟨.explicit [36, 37], 1⟩], key := 11 }
+def wAT : Cert := { wRoot with id := 12, issuer := .digest 11, idNone := true, app := some [36], issue := none, key := 12,
+                                sigBy := some 11 }
+def wStation : Station :=
+  (({} : Station).run Cfg.fixed [.addRoot ⟨wRoot, none⟩, .addAA ⟨wAA, some wRoot⟩])
+def wMsg (psid t : Nat) : Msg :=
+  { psid := psid, genTime := some t, genLoc := false, p2pcdLearn := false, missingCrl := false, expiry := false,
+    encKey := false, inlineReq := none, reqCert := none, signer := .certs [wAT], sigFmtOk := true, sigBy := some 12,
+    payload := 7 }
+
+/-- non-vacuity: the honest chain is learnt and the honest message accepted by the repaired code -/
+example : accepts Cfg.fixed wStation (wMsg 36 100000500) = true := by decide
+example : certsOf (wStation.step Cfg.fixed (.msg (wMsg 36 100000500))).store.ats = [wAT] := by decide
+
+/-- the code before the repair accepted ITS-AID 99 under a ticket for {36} (C09-F1); the repaired code does not -/
+theorem accept_psid_old_witness :
+    accepts Cfg.old wStation (wMsg 99 100000500) = true ∧ 99 ∉ wAT.appList ∧
+    accepts Cfg.fixed wStation (wMsg 99 100000500) = false := by decide
+
+/-- the code before the repair accepted generation times outside the validity period (C09-F2) -/
+theorem accept_time_old_witness :
+    accepts Cfg.old wStation (wMsg 36 5) = true ∧ accepts Cfg.old wStation (wMsg 36 2000000000) = true ∧
+    accepts Cfg.fixed wStation (wMsg 36 5) = false ∧ accepts Cfg.fixed wStation (wMsg 36 2000000000) = false := by
+  decide
+
+/-! ## Issuing API -/
+
+/-- a certificate obtained from `issue_certificate` for a subordinate (non-self) unsigned template verifies under
+    its issuer only if its permissions are contained in the issuer's issuing permissions and the issuer's remaining
+    chain length allows it -/
+theorem issued_verifies_only_if {i c c' : Cert} {newId : Nat} (hsub : c.issuer ≠ .self) (hu : c.sigBy = none)
+    (h : Cert.issueCert Cfg.fixed i c newId = .ok c') (hv : c'.verify Cfg.fixed (some i) = true) :
+    PermsWithin c i ∧ PermsWithin c' i ∧ ChainAllows i ∧ c' = { c.setChainLen i with issuer := .digest i.id, id := newId, sigBy := some i.key } := by
+  unfold Cert.issueCert at h
+  simp only [hsub, if_false] at h
+  split at h
+  · rename_i hp
+    split at h
+    · simp at h
+    · cases h; rw [verify_unsigned hu] at hv; simp at hv
+    · rename_i he
+      cases h
+      obtain ⟨j, hj, _, hl⟩ := verify_digest (cfg := Cfg.fixed) rfl (h := i.id) rfl hv
+      cases hj
+      exact ⟨permsOk_within rfl hp, hl.perms, enoughChain_allows he, rfl⟩
+  · cases h; rw [verify_unsigned hu] at hv; simp at hv
+
+/-- the same through `initialize_certificate` -/
+theorem initialized_verifies_only_if {i c c' : Cert} {newId : Nat} (ok : Bool) (hu : c.sigBy = none)
+    (h : Cert.initCert Cfg.fixed i ok c newId = .ok c') (hv : c'.verify Cfg.fixed (some i) = true) :
+    PermsWithin c' i ∧ ChainAllows i := by
+  unfold Cert.initCert at h
+  split at h
+  · simp at h
+  · have hu' : (Cert.setChainLen { c with issuer := .digest i.id } i).sigBy = none := by
+      unfold Cert.setChainLen; split <;> simpa using hu
+    have hsub : (Cert.setChainLen { c with issuer := .digest i.id } i).issuer ≠ .self := by
+      unfold Cert.setChainLen; split <;> simp
+    obtain ⟨_, h2, h3, _⟩ := issued_verifies_only_if hsub hu' h hv
+    exact ⟨h2, h3⟩
+
+/-- the issued certificate's own issuing budget is ≥ 1 and one below an entry of its issuer: chain length decreases -/
+theorem issued_chain_decreases {i c c' : Cert} {newId : Nat} (hsub : c.issuer ≠ .self) (hu : c.sigBy = none)
+    (h : Cert.issueCert Cfg.fixed i c newId = .ok c') (hv : c'.verify Cfg.fixed (some i) = true) :
+    ∀ p ∈ c'.issueList, 1 ≤ p.minChain ∧ ∃ q ∈ i.issueList, p.minChain = q.minChain - 1 := by
+  obtain ⟨_, _, _, rfl⟩ := issued_verifies_only_if hsub hu h hv
+  exact setChainLen_budget c i
+
+/-- non-vacuity: an AA with budget 1 issues a ticket; an issuer with budget 0 does not -/
+example : (match Cert.issueCert Cfg.fixed wAA { wAT with sigBy := none } 12 with
+    | .ok r => r.verify Cfg.fixed (some wAA) | .error _ => false) = true := by decide
+example : (match Cert.issueCert Cfg.fixed { wAA with issue := some [⟨.explicit [36], 0⟩] } { wAT with sigBy := none } 12 with
+    | .ok r => r.sigBy.isNone | .error _ => false) = true := by decide
+
 end Props.C09
